@@ -128,7 +128,7 @@ def run(ctx, factor):
                                     model_agrees_with_spec=(o["model"][1]["spec"]["found"] == exp))
                     tags.append("oracle-found" if exp else "oracle-not-found")
             rep.case(patdiff.case_of(o), usable, tags=tags)
-        if rep.violations and factor > 1:
+        if rep.has_new() and factor > 1:
             return
     # deref inside random rules as well
     run_cases(ctx, factor, {"ops", "deref", "deref_logic", "ops_logic"}, 100, 3000, scan=True, tagger=blob_tagger(["$deref"]))
